@@ -386,6 +386,10 @@ func genC20(tier string) []Scenario {
 		}
 		out = append(out, waitScn{kind: kFuncR, w: w, n: 3, cancelJ: -1, bound: 0, fb: true}.scenario())
 	}
+	// the smallest wait there is: one nanosecond is a wait, not "no wait"
+	out = append(out, waitScn{kind: kFuncR, w: 1, n: 3, cancelJ: -1, bound: 0}.scenario())
+	out = append(out, waitScn{kind: kBase, w: 1, n: 3, cancelJ: -1, bound: 0}.scenario())
+	out = append(out, waitScn{kind: -1, w: 1, n: 3, items: 2, c: 0, cancelJ: -1, bound: 0}.scenario())
 	// the same node object again after a run that ended badly; runs nested inside a retried exec
 	for _, w := range []time.Duration{time.Millisecond, time.Hour} {
 		for _, form := range []string{"struct node", "function node", "batch node"} {
